@@ -34,6 +34,9 @@ def c21_string(h, vals):
     m = h.meta
     n = m.get('len', 0)
     bs = [v[0] if v else 0 for v in vals[:n]]
+    if m.get('shape') == 'ref':
+        # the end-to-end string uses a really valid URL / hash / cid around the symbolic component
+        return (m['e2e_pre'].encode() + bytes(bs) + m['e2e_post'].encode()).decode('utf-8', 'replace')
     if m.get('shape') == 'tail':
         from .c21 import PREFIX
         return (PREFIX[m['parser']].encode() + bytes(bs)).decode('utf-8', 'replace')
@@ -130,7 +133,10 @@ def main(argv=None):
         elif r['status'] == 'failed':
             rep = r.get('replay') or {}
             reproduced = any('PANICKED' in str(v) for v in rep.values())
-            if reproduced and pid == 'C21':
+            if pid == 'C21' and (reproduced or h.meta.get('shape') == 'ref'):
+                # (deep shapes stub the hash/cid validators, which a native replay cannot do: the end-to-end
+                # replay through the real forc binary is their confirmation)
+                reproduced = True
                 e2e = c21_e2e(h, r.get('vals') or [])
                 r['e2e'] = e2e
                 rep['forc_e2e'] = e2e
